@@ -2,7 +2,7 @@
    ExtrOcamlBasic only (bool, option, list, prod, unit -> OCaml natives); N, positive, nat, Z stay
    extracted datatypes; no Extract Constant / Extract Inductive of our own. *)
 Require Import Coq.extraction.Extraction Coq.extraction.ExtrOcamlBasic.
-Require Import Pearl.Base.Prelude Pearl.Base.LE Pearl.Base.AHash Pearl.Filter.Bloom Pearl.Storage.Model Pearl.Storage.Spec Pearl.Base.Crc Pearl.Format.Record Pearl.Blob.Bytes Pearl.Index.BPTree Pearl.Index.Bytes Pearl.Io.Trace Pearl.Blob.Scan Pearl.Index.Open Pearl.Filter.Hier Pearl.Filter.Combined Pearl.Storage.Filtered.
+Require Import Pearl.Base.Prelude Pearl.Base.LE Pearl.Base.AHash Pearl.Filter.Bloom Pearl.Storage.Model Pearl.Storage.Spec Pearl.Base.Crc Pearl.Format.Record Pearl.Blob.Bytes Pearl.Index.BPTree Pearl.Index.Bytes Pearl.Io.Trace Pearl.Blob.Scan Pearl.Index.Open Pearl.Filter.Hier Pearl.Filter.Combined Pearl.Storage.Filtered Pearl.Format.Meta.
 Extraction Language OCaml.
 Set Extraction KeepSingleton.
 Extraction "model.ml"
@@ -18,4 +18,5 @@ Extraction "model.ml"
   step_evs judge judge_from ev_harmless ev_header_synced ev_index_after_sync dirty_of
   blob_open_scan dispose tool_validate_blob tool_recover index_open
   ch_new ch_step ch_offload ch_iter ch_mem ch_check cf_new cf_add range_bytes
-  track cf_answer cfs_answer consulted cut_applies.
+  track cf_answer cfs_answer consulted cut_applies
+  meta_ok meta_decodes.
